@@ -472,7 +472,7 @@ func runVarFam(vec map[string]interface{}) map[string]interface{} {
 			if agg {
 				args = append(args, "--aggregate", "--threshold", thousandths(gIntD(r, "thr", 0)))
 			}
-			for k, v := range cliRun(cliCase{files: files, args: args, inproc: out.String()}) {
+			for k, v := range cliRun(cliCase{files: files, args: args, inproc: out.String(), outflag: "-o"}) {
 				res[k] = v
 			}
 		}
